@@ -15,6 +15,7 @@ REAL = "real code from the /repo working tree"
 PROPERTIES = {}
 NOT_APPLICABLE = {}
 ENGINE_KINDS = {
+    "grofile": "GroFile writer sessions on a simulated disk (file seam: operation log, crash images, torn writes, byte truncation) read back by the real reader and an independent parser",
     "pbc": "seeded trajectories of two residues under a box; closed-form oracle (degenerate simulation: no schedule, no fault)",
 }
 
@@ -43,3 +44,39 @@ _reg("C19", engine="pbc", level="exploration",
      probes=["nonzero_image", "triclinic", "far_outside", "inv_flag", "point_argument"],
      assumptions=["separations within 1e-6 of an exact half box are skipped, as the property states",
                   "triclinic boxes: moderate skew only (off-diagonal <= 0.45 of the diagonal); only symmetry/shift invariance/inverse flag are asserted there"])
+
+
+_reg("C13", engine="grofile", level="exploration",
+     runs={"quick": 6000, "thorough": 400000}, block=100,
+     technique="seeded writer sessions (configuration order, formats, counts scheduled by the PRNG) on a simulated disk; file-seam image checked by the real reader and an independent fixed-width parser",
+     level_text=("Sampled writer sessions: the order in which title / box / position format / atom count are configured, "
+                 "writeline vs writelines, with-block vs close, declared vs back-filled count, 1..300 records with numbers around "
+                 "the five-digit limit and coordinates on rounding boundaries.  The disk image reconstructed from the file "
+                 "seam's operation log is compared with the session by GroFile itself and by an independent parser."),
+     level_note=("Trusted: the 25-line independent parser, Python float formatting.  Names are ASCII, non-blank, contain a "
+                 "letter; values fit their field after rounding (as the property states).  No disk faults are injected here "
+                 "(they belong to C14)."),
+     rule=("one run = one writer session; non-trivial = the session closed and was read back; distinct = distinct "
+           "(decimals, velocities, declared count, box kind, record count class) signatures"),
+     components={"GroFile (writer and reader)": REAL, "dump/extract_lattice_gro": REAL, "disk": "tmpfs file behind the file seam (operation log + image reconstruction)"},
+     schedule_dimension="order of writer configuration calls; writeline/writelines; with/close",
+     probes=["custom_format", "velocities", "declared_count", "number_ge_99999", "triclinic_box"])
+
+_reg("C14", engine="grofile", level="fault_enumeration",
+     runs={"quick": 640, "thorough": 40000}, block=10,
+     technique="crash-point enumeration on the file seam's operation log (stop before every write/seek/close, torn writes, byte truncation), each image opened by the real reader",
+     level_text=("Per sampled writer session EVERY crash point at operation granularity is enumerated (before each record, "
+                 "before close, between the seek / count back-fill / seek / box / newline steps of close), every torn prefix "
+                 "of the header, count back-fill and box writes and of a sample of record writes, and every byte-level "
+                 "truncation of the complete file (files <= 8 KiB; larger and shipped files: all line boundaries +-3 plus a random "
+                 "sample).  Sessions themselves are sampled."),
+     level_note=("Oracle: an image that ends at or before the first byte of the complete file's box line must make GroFile(path) "
+                 "(or reading its records) raise; an accepted image must return exactly the complete file's records.  Any "
+                 "exception type counts as rejection.  Names contain a letter that cannot occur in a float literal (a purely "
+                 "numeric atom line is indistinguishable from a box line in this format).  Crash model: operation log replay "
+                 "(what an unbuffered writer leaves); EIO/ENOSPC/lost pages are not injected -- no property speaks about them."),
+     rule=("one run = one writer session (or one shipped file) with all its crash images; non-trivial = at least one image "
+           "was judged; distinct = distinct (tail of accept/reject pattern over the close sequence, record count class, declared) signatures"),
+     components={"GroFile (writer and reader)": REAL, "disk": "tmpfs file; crash images rebuilt from the file seam's operation log"},
+     schedule_dimension="crash point (operation index, torn prefix length, truncation offset)",
+     probes=["torn_in_close", "images", "shipped_file"])
